@@ -16,6 +16,16 @@ PIPELINES = {
         ],
         "min_events": 1000,
     },
+    # distinguished-name container: all edit histories of a fixed length + random long walks
+    "dn": {
+        "variants": ["ring"],
+        "mc": [{"module": "MC_Names", "workers": 4}],
+        "drivers": [
+            {"name": "histories", "cmd": ["dn-cases", "{cases}", "{out}"], "cases": "MC_Names", "stateful": True, "chunk": 12000},
+            {"name": "walks", "cmd": ["dn-random", "{out}", "{walks}", "200"], "stateful": True, "chunk": 12000, "random": True},
+        ],
+        "min_events": 1000,
+    },
     # time values around the form boundaries under many offsets (C09), carried by certificates
     "time": {
         "variants": ["ring"],
@@ -38,6 +48,9 @@ PROPS = {
     "C09": _p("model_checking", ["time", "cert"], ["C09."],
               "cases = MC_Time.TimeCases: (boundary day, delta seconds, UTC offset) triples around 1950-01-01, 2050-01-01, 0000-01-01 and 10000-01-01, each expressed under an offset and under the negated offset with different sub-second parts; distinct by abstract args",
               ops=["Cert"], exhaustive=True),
+    "C20": _p("model_checking", ["dn"], ["C20."],
+              "cases = every sequence of exactly MaxOps (4 quick / 5 thorough) push/remove operations over 3-4 attribute types x 2 values (MC_Names.Histories), each followed by equality probes against freshly built names (same enumeration, proper prefix, reversed, last value changed) and by issuing a certificate whose subject is decoded; plus random walks of length 200 over 10 types and 6 value kinds; distinct by (operation, arguments) event",
+              ops=["DnPush", "DnRemove", "DnEq", "DnEncode"], exhaustive=False),
     "C04": _p("model_checking", ["cert", "time"], ["C04."], "as C02; every artefact is walked by the strict DER reader", ops=["Cert"], exhaustive=True),
     "C05": _p("model_checking", ["cert"], ["C05."], "as C02", ops=["Cert"], exhaustive=True),
     "C01": _p("model_checking", ["cert"], ["C01."], "as C02", ops=["Cert"], exhaustive=True),
